@@ -15,7 +15,7 @@ import (
 // park): no trace, only the oracles that need no trace. This is the part of the run that
 // gives the race detector something to look at.
 func free(c *hx.Ctx, prop string) {
-	runs := c.N(120, 3000)
+	runs := c.N(120, 1000)
 	for r := 0; r < runs && StuckTotal < 3; r++ {
 		rng := c.Rng.Fork()
 		n := 1 + rng.Intn(4)
